@@ -10,6 +10,9 @@ import ALV.Lemmas.C20Amdf
 import ALV.Lemmas.C20Clip
 import ALV.Lemmas.C20Zcross
 import ALV.Lemmas.C20Unwrap
+import ALV.Lemmas.C20Call
+import ALV.Lemmas.C20Causal
+import ALV.Gen.C20Defaults
 import ALV.Common.Audit
 
 namespace ALV.Props.C20
@@ -384,6 +387,256 @@ theorem rat_spec_recursions (size lag : Nat) (hs : 0 < size) (zero h fs md step 
 
 end rat
 
+/-! ### the call layer: omitted parameters, `None`, strategy defaults (`ALV.Model.C20Call`)
+
+A call may leave parameters out.  The `…Call` models fill them in from the documented table
+(`ALV.C20.documented`, `Dflt.*`); the table is compared with the source signatures below. -/
+section calls
+variable {K : Type} [Field K] [LinearOrder K] [IsStrictOrderedRing K]
+
+/-- **C20.9a** the signatures read from the source (translator `harness/props/c20_sig.py` →
+`ALV.Gen.C20Defaults`) have the documented parameter names, order and default VALUES, and the
+strategy dictionaries the documented strategies, aliases and registration order (first = default). -/
+theorem source_signatures_are_documented :
+    Gen.C20Defaults.signatures.map (Sig.values piQ) = R.documentedValues ∧
+    Gen.C20Defaults.strategies = documentedStrategies := by
+  decide +kernel
+
+/-- the strategy names of the model are the documented ones; the first group is the default -/
+theorem strategy_names_documented :
+    (documentedStrategies.map fun d => (d.1, d.2.map fun g => g.map fun n =>
+      (MavgStrategy.ofName n).isSome || (AccStrategy.ofName n).isSome || (EnvStrategy.ofName n).isSome)) =
+      [("envelope", [[true], [true], [true]]), ("maverage", [[true], [true, true], [true]]),
+       ("accumulate", [[true, true], [true, true], [true]])] ∧
+    EnvStrategy.ofName "rms" = some EnvStrategy.dflt ∧ MavgStrategy.ofName "deque" = some MavgStrategy.dflt ∧
+    AccStrategy.ofName "accumulate" = some AccStrategy.dflt ∧
+    MavgStrategy.ofName "feedback" = MavgStrategy.ofName "recursive" ∧
+    AccStrategy.ofName "itertools" = AccStrategy.ofName "accumulate" ∧
+    AccStrategy.ofName "pure_python" = AccStrategy.ofName "func" := by
+  decide
+
+omit [IsStrictOrderedRing K] in
+/-- **C20.9b** `unwrap` called with numbers for the parameters that are given: every omitted
+parameter takes ITS OWN documented default — `max_delta = π` whatever `step` is, `step = 2π`
+whatever `max_delta` is. -/
+theorem unwrapCall_eq (fl : K → K) (pi : K) (md step : Option K) (xs : List K) :
+    unwrapCall fl pi (md.map some) (step.map some) xs =
+      .ok (unwrap fl (md.getD pi) (step.getD (2 * pi)) xs) := by
+  cases md <;> cases step <;>
+    simp [unwrapCall, Arg.resolve, DExpr.eval, Dflt.unwrap_max_delta, Dflt.unwrap_step]
+
+/-- **C20.9c** `unwrap(sig, step=s)`: a sequence with no adjacent jump above π is left untouched,
+for every step (the threshold of a call that omits `max_delta` does not follow the step). -/
+theorem unwrapCall_step_only_identity (fl : K → K) (pi : K) (step : Option K) (xs : List K)
+    (h : AdjAll (fun a b => ¬ |b - a| > pi) xs) :
+    unwrapCall fl pi none (step.map some) xs = .ok xs := by
+  have := unwrapCall_eq fl pi none step xs
+  simp only [Option.map_none, Option.getD_none] at this
+  rw [this, unwrap_identity fl pi _ xs h]
+
+/-- **C20.9d** the three clauses of the property for a call with omitted parameters: outputs differ
+from inputs by multiples of the effective step, and no adjacent output jump exceeds
+`max(effective max_delta, effective step / 2)`. -/
+theorem unwrapCall_clauses (fl : K → K) (hf : IsFloor fl) (pi : K) (md step : Option K)
+    (hs : 0 < step.getD (2 * pi)) (xs : List K) :
+    ∃ ys, unwrapCall fl pi (md.map some) (step.map some) xs = .ok ys ∧ ys.length = xs.length ∧
+      (∀ n, n < xs.length → ∃ k : ℤ, ys.getD n 0 = xs.getD n 0 + (k : K) * step.getD (2 * pi)) ∧
+      AdjAll (fun y0 y1 => |y1 - y0| ≤ max (md.getD pi) (step.getD (2 * pi) / 2)) ys := by
+  refine ⟨_, unwrapCall_eq fl pi md step xs, ?_, ?_, ?_⟩
+  · exact (unwrap_step_multiples fl hf _ _ hs xs).1
+  · exact (unwrap_step_multiples fl hf _ _ hs xs).2
+  · exact unwrap_adjacent_jump fl hf _ _ hs xs
+
+/-- **C20.9e** `None` for a numeric parameter of `unwrap` is a TypeError as soon as the parameter is
+used: `max_delta=None` on any input of two samples, `step=None` at the first jump above `max_delta`
+(and only then: otherwise the input comes back). -/
+theorem unwrapCall_none (fl : K → K) (pi md : K) (step : Arg K) (xs : List K) :
+    (unwrapCall fl pi (some none) step xs = if xs.length ≤ 1 then .ok xs else .error "TypeError") ∧
+    (AdjAll (fun a b => ¬ |b - a| > md) xs → unwrapCall fl pi (some (some md)) (some none) xs = .ok xs) ∧
+    (¬ AdjAll (fun a b => ¬ |b - a| > md) xs →
+      unwrapCall fl pi (some (some md)) (some none) xs = .error "TypeError") := by
+  refine ⟨by simp [unwrapCall, Arg.resolve], ?_, ?_⟩
+  · intro h
+    have := (hasJumpAbove_false_iff md xs).mpr h
+    simp [unwrapCall, Arg.resolve, this]
+  · intro h
+    have : hasJumpAbove md xs = true := by
+      by_contra c
+      exact h ((hasJumpAbove_false_iff md xs).mp (by simpa using c))
+    simp [unwrapCall, Arg.resolve, this]
+
+/-- **C20.9f** below half a step the threshold does not matter: `unwrap` gives the same output for
+all `max_delta` values in `[md, md']` when `md' < step/2` (a jump of magnitude below `step/2` is its
+own nearest residue).  This is why a default of `max_delta` only shows for `step < 2·max_delta`. -/
+theorem unwrap_max_delta_irrelevant_below_half_step (fl : K → K) (hf : IsFloor fl) (md md' step : K)
+    (hs : 0 < step) (h1 : md ≤ md') (h2 : md' < step / 2) (xs : List K) :
+    unwrap fl md step xs = unwrap fl md' step xs := by
+  rw [unwrap_eq_spec fl hf md step hs, unwrap_eq_spec fl hf md' step hs,
+    unwrapSpec_md_irrelevant fl hf md md' step hs h1 h2]
+
+/-- **C20.10a** `clip` with omitted limits: `low = -1`, `high = 1`, each on its own. -/
+theorem clipCall_eq (low high : Arg K) (xs : List K) :
+    clipCall low high xs = clip (low.getD (some (-1))) (high.getD (some 1)) xs := by
+  simp [clipCall, Arg.resolve, DExpr.eval, Dflt.clip_low, Dflt.clip_high]
+
+/-- **C20.10b** `clip(sig)` never fails and clamps every sample into `[-1, 1]`; a call giving one
+limit keeps the default of the other (so `clip(sig, low=2)` and `clip(sig, high=-2)` are errors). -/
+theorem clipCall_defaults (xs : List K) (v : K) :
+    clipCall none none xs = .ok (xs.map (clip1 (some (-1)) (some 1))) ∧
+    ((∃ e, clipCall (some (some v)) none xs = .error e) ↔ 1 < v) ∧
+    ((∃ e, clipCall none (some (some v)) xs = .error e) ↔ v < -1) := by
+  refine ⟨?_, ?_, ?_⟩
+  · rw [clipCall_eq, clip_eq_spec]
+    have : ¬ (1 : K) < -1 := by norm_num
+    simp [clipSpec, this]
+  · rw [clipCall_eq, clip_error_iff]; simp
+  · rw [clipCall_eq, clip_error_iff]; simp
+
+omit [Field K] [IsStrictOrderedRing K] in
+/-- **C20.10c** a limit strictly beyond every sample (`-inf` / `inf`) acts as `None`. -/
+theorem clip_limit_beyond_samples (lo hi : K) (low high : Option K) (xs : List K) :
+    ((∀ h, high = some h → ¬ h < lo) → (∀ x ∈ xs, lo < x) → clip (some lo) high xs = clip none high xs) ∧
+    ((∀ l, low = some l → ¬ hi < l) → (∀ x ∈ xs, x < hi) → clip low (some hi) xs = clip low none xs) :=
+  ⟨clip_low_beyond lo high xs, clip_high_beyond low hi xs⟩
+
+omit [IsStrictOrderedRing K] in
+/-- **C20.11a** `zcross` with omitted parameters: `hysteresis = 0`, `first_sign = 0`, each on its
+own; `None` for either is a TypeError. -/
+theorem zcrossCall_eq (h fs : Option K) (xs : List K) :
+    zcrossCall (h.map some) (fs.map some) xs = .ok (zcross (h.getD 0) (fs.getD 0) xs) ∧
+    zcrossCall (some none) (fs.map some) xs = .error "TypeError" ∧
+    zcrossCall (h.map some) (some none) xs = .error "TypeError" := by
+  cases h <;> cases fs <;>
+    simp [zcrossCall, Arg.resolve, DExpr.eval, Dflt.zcross_hysteresis, Dflt.zcross_first_sign]
+
+/-- **C20.11b** `zcross(seq)` marks exactly the strict sign changes (zeros keep the sign). -/
+theorem zcrossCall_default_spec (xs : List K) :
+    zcrossCall (none : Arg K) none xs = .ok (zcrossSpec 0 0 xs) := by
+  have := (zcrossCall_eq (none : Option K) none xs).1
+  simp only [Option.map_none, Option.getD_none] at this
+  rw [this, zcross_eq_spec 0 0 (le_refl 0)]
+
+/-- **C20.11c** a hysteresis that no sample exceeds (`inf`): no crossing at all. -/
+theorem zcross_all_inside (h fs : K) (xs : List K) (hx : ∀ x ∈ xs, |x| ≤ h) :
+    zcross h fs xs = List.replicate xs.length 0 := by
+  unfold zcross
+  split
+  · exact zphase1_all_inside h xs hx
+  · exact zphase2_all_inside h _ (by unfold sgnPM; split <;> simp) xs hx
+
+end calls
+
+section calls2
+variable {K : Type} [Field K] [CharZero K]
+
+/-- **C20.12a** `maverage(size)` is the `deque` strategy; every strategy, with `zero` omitted
+(memory `0`) or given, is the mean of the last `size` samples. -/
+theorem maverageCall_eq_spec (s : Option MavgStrategy) (size : Nat) (hs : 0 < size) (zero : Option K)
+    (xs : List K) :
+    maverageCall s size zero xs = mavgSpec size (zero.getD 0) xs ∧
+    maverageCall none size zero xs = maverageDeque size (zero.getD 0) xs := by
+  have e : (zero.getD (dnum 0 Dflt.maverage_zero) : K) = zero.getD 0 := by
+    cases zero <;> simp [dnum, DExpr.eval, Dflt.maverage_zero]
+  constructor
+  · unfold maverageCall
+    simp only [e]
+    cases s with
+    | none => exact maverage_deque_eq_spec size hs _ xs
+    | some s =>
+      cases s
+      · exact maverage_deque_eq_spec size hs _ xs
+      · exact maverage_recursive_eq_spec size hs _ xs
+      · exact maverage_fir_eq_spec size hs _ xs
+  · simp [maverageCall, e, MavgStrategy.dflt]
+
+omit [CharZero K] in
+/-- **C20.12b** `accumulate(sig)` is the `itertools` strategy; every strategy (`z` with its memory
+`zero` omitted = 0) gives the running sums. -/
+theorem accumulateCall_eq_spec (s : Option AccStrategy) (xs : List K) :
+    accumulateCall s none xs = accSpec xs ∧ accumulateCall none none xs = accumulateIt xs := by
+  constructor
+  · unfold accumulateCall
+    cases s with
+    | none => exact accumulate_it_eq_spec xs
+    | some s =>
+      cases s
+      · exact accumulate_it_eq_spec xs
+      · exact accumulate_func_eq_spec xs
+      · have : (dnum 0 Dflt.filter_zero : K) = 0 := by simp [dnum, DExpr.eval, Dflt.filter_zero]
+        simp only [Option.getD_none, this]
+        exact accumulate_z_eq_spec xs
+  · simp [accumulateCall, AccStrategy.dflt]
+
+end calls2
+
+section calls3
+variable {K : Type} [Field K] [LinearOrder K] [IsStrictOrderedRing K]
+
+/-- **C20.12c** `amdf(lag, size)(sig)` (memory `zero` omitted = 0) is the moving average of
+`|x[n] − x[n−lag]|`, and its moving average is the dictionary default `maverage(size)`. -/
+theorem amdfCall_eq_spec (lag size : Nat) (hs : 0 < size) (zero : Option K) (xs : List K) :
+    amdfCall lag size zero xs = amdfSpec lag size (zero.getD 0) xs ∧
+    amdfCall lag size zero xs =
+      maverageCall none size (some (zero.getD 0)) ((frun (lagNum lag) [] (zero.getD 0) xs).map absG) := by
+  have e : (zero.getD (dnum 0 Dflt.amdf_zero) : K) = zero.getD 0 := by
+    cases zero <;> simp [dnum, DExpr.eval, Dflt.amdf_zero]
+  constructor
+  · unfold amdfCall; rw [e]; exact amdf_eq_spec lag size hs _ xs
+  · simp [amdfCall, e, amdf, maverageCall, MavgStrategy.dflt]
+
+/-- **C20.12d** `envelope(sig)` is the `rms` strategy with cutoff `π/512`: the square root of the
+low-pass (design at `π/512`) of `x²`; `abs` / `squared` with the cutoff omitted use the same design. -/
+theorem envelopeCall_default (design : K → List K × List K) (sqrt : K → K) (pi : K)
+    (s : Option EnvStrategy) (xs : List K) :
+    envelopeCall design sqrt pi none none xs =
+      (frun (design (pi / 512)).1 (design (pi / 512)).2 0 (xs.map fun x => x ^ 2)).map sqrt ∧
+    envelopeCall design sqrt pi s none xs = envelopeCall design sqrt pi s (some (pi / 512)) xs := by
+  have e : (dnum pi Dflt.envelope_cutoff : K) = pi / 512 := by
+    simp [dnum, DExpr.eval, Dflt.envelope_cutoff]
+  constructor
+  · simp only [envelopeCall, Option.getD_none, e, EnvStrategy.dflt]
+    rw [(envelope_by_definition _ _ xs).2]
+  · simp [envelopeCall, e]
+
+end calls3
+
+/-- the `Rat` call-layer terms the driver runs are instances of the theorems above (`π` = the
+exact value of the double `math.pi`) -/
+theorem rat_calls (md step h fs : Option Rat) (low high : Arg Rat) (xs : List Rat) :
+    R.unwrapCall (md.map some) (step.map some) xs = .ok (R.unwrap (md.getD piQ) (step.getD (2 * piQ)) xs) ∧
+    R.clipCall low high xs = R.clip (low.getD (some (-1))) (high.getD (some 1)) xs ∧
+    R.zcrossCall (h.map some) (fs.map some) xs = .ok (R.zcross (h.getD 0) (fs.getD 0) xs) :=
+  ⟨unwrapCall_eq R.fl piQ md step xs, clipCall_eq low high xs, (zcrossCall_eq h fs xs).1⟩
+
+/-! ### causality: the first `n` outputs depend on the first `n` inputs only
+
+An endless input is read through `take` / `islice`; the model is given the samples that were read.
+These theorems say that this loses nothing: every tool maps a prefix of the input to the same
+prefix of the output (for all parameters, with no order or field hypothesis at all). -/
+section causal
+variable {K : Type} [Field K] [LinearOrder K]
+
+/-- **C20.13** every tool is causal. -/
+theorem tools_are_causal (size lag : Nat) (zero h fs md step : K) (fl : K → K) (b a : List K)
+    (low high : Option K) (xs ys : List K) :
+    (maverageDeque size zero (xs ++ ys)).take xs.length = maverageDeque size zero xs ∧
+    (maverageRecursive size zero (xs ++ ys)).take xs.length = maverageRecursive size zero xs ∧
+    (maverageFir size zero (xs ++ ys)).take xs.length = maverageFir size zero xs ∧
+    (accumulateFunc (xs ++ ys)).take xs.length = accumulateFunc xs ∧
+    (accumulateZ zero (xs ++ ys)).take xs.length = accumulateZ zero xs ∧
+    (amdf lag size zero (xs ++ ys)).take xs.length = amdf lag size zero xs ∧
+    (envelopeAbs b a (xs ++ ys)).take xs.length = envelopeAbs b a xs ∧
+    (envelopeSquared b a (xs ++ ys)).take xs.length = envelopeSquared b a xs ∧
+    (zcross h fs (xs ++ ys)).take xs.length = zcross h fs xs ∧
+    (unwrap fl md step (xs ++ ys)).take xs.length = unwrap fl md step xs ∧
+    (∀ zs, clip low high (xs ++ ys) = .ok zs → clip low high xs = .ok (zs.take xs.length)) :=
+  ⟨maverageDeque_prefix size zero xs ys, frun_prefix _ _ zero xs ys, frun_prefix _ _ zero xs ys,
+   accumulateFunc_prefix xs ys, frun_prefix _ _ zero xs ys, amdf_prefix lag size zero xs ys,
+   (envelope_prefix b a xs ys).1, (envelope_prefix b a xs ys).2, zcross_prefix h fs xs ys,
+   unwrap_prefix fl md step xs ys, fun zs => clip_prefix low high xs ys zs⟩
+
+end causal
+
 /-! ### non-vacuity -/
 example : (0 < 4) ∧ maverageDeque 2 (0 : Rat) [1, 3, 5] = [1/2, 2, 4] := by decide +kernel
 example : amdf 2 2 (0 : Rat) [1, 3, -2, 5] = [1/2, 2, 3, 5/2] := by decide +kernel
@@ -398,6 +651,25 @@ example : (0 < 2) ∧ mavgSpecRec 2 (0 : Rat) [1, 3, 5] = [1/2, 2, 4] ∧ accSpe
     R.unwrapSpecRec 1 2 [1, 3/2, -2, 5/4, 7] = [1, 3/2, 2, 5/4, 1] := by decide +kernel
 example : AdjAll (fun a b : Rat => ¬ |b - a| > 1) [0, 1, 1/2] := by
   simp only [AdjAll]; norm_num
+
+example : R.unwrapCall none (some (some 1)) [0, 2, 4, 1, 3, 3, 0] = .ok [0, 2, 4, 1, 3, 3, 0] ∧
+    R.unwrapCall (some (some (1/2))) (some (some 1)) [0, 2, 4, 1, 3, 3, 0] = .ok [0, 0, 0, 0, 0, 0, 0] ∧
+    AdjAll (fun a b : Rat => ¬ |b - a| > piQ) [0, 2, 4, 1, 3, 3, 0] := by
+  refine ⟨by decide +kernel, by decide +kernel, ?_⟩
+  simp only [AdjAll, piQ]; norm_num
+example : R.clipCall none none [-3, 1/2, 2] = .ok [-1, 1/2, 1] ∧
+    R.clipCall (some (some 2)) none [0] = .error "ValueError" ∧
+    R.clipCall (some none) none [-3, 2] = .ok [-3, 1] := by decide +kernel
+example : R.zcrossCall none none [1, 0, -1, -2, 3] = .ok [0, 0, 1, 0, 1] ∧
+    R.zcrossCall (some none) none [1] = .error "TypeError" := by decide +kernel
+example : R.maverageCall none 2 none [1, 3, 5] = [1/2, 2, 4] ∧
+    R.maverageCall (MavgStrategy.ofName "feedback") 2 (some 1) [1, 3, 5] = [1, 2, 4] ∧
+    R.accumulateCall none none [1, 2, 3] = [1, 3, 6] ∧ R.amdfCall 1 2 none [1, 3, 0] = [1/2, 3/2, 5/2] := by
+  decide +kernel
+example : (0 : Rat) < 3 ∧ (1 : Rat) ≤ 5/4 ∧ (5/4 : Rat) < 3 / 2 ∧
+    R.unwrap 1 3 [0, 6/5, 5, 4] = R.unwrap (5/4) 3 [0, 6/5, 5, 4] := by decide +kernel
+example : (R.unwrap 1 2 ([1, 3/2, -2] ++ [5/4, 7])).take 3 = R.unwrap 1 2 [1, 3/2, -2] ∧
+    (R.zcross 1 0 ([1/2, 2] ++ [-1/2, -3, 5])).take 2 = R.zcross 1 0 [1/2, 2] := by decide +kernel
 
 end ALV.Props.C20
 
